@@ -481,3 +481,39 @@ fn from_data() {
 
     assert_eq!(table, table2);
 }
+
+/// Pass-through wrappers for the verification harness (no logic).
+#[cfg(feature = "verif_hooks")]
+pub mod verif {
+    use super::*;
+
+    /// (code bits, code length) per symbol
+    pub fn codes(t: &HuffmanTable) -> Vec<(u32, u8)> {
+        t.codes.clone()
+    }
+    pub fn distribute_weights(amount: usize) -> Vec<usize> {
+        super::distribute_weights(amount)
+    }
+    pub fn redistribute_weights(weights: &mut [usize], max_num_bits: usize) {
+        super::redistribute_weights(weights, max_num_bits)
+    }
+    pub fn weights(t: &HuffmanTable) -> Vec<u8> {
+        let mut w = BitWriter::new();
+        HuffmanEncoder::new(t, &mut w).weights()
+    }
+    pub fn write_table(t: &HuffmanTable) -> Vec<u8> {
+        let mut w = BitWriter::new();
+        HuffmanEncoder::new(t, &mut w).write_table();
+        w.dump()
+    }
+    pub fn encode(t: &HuffmanTable, data: &[u8], with_table: bool) -> Vec<u8> {
+        let mut w = BitWriter::new();
+        HuffmanEncoder::new(t, &mut w).encode(data, with_table);
+        w.dump()
+    }
+    pub fn encode4x(t: &HuffmanTable, data: &[u8], with_table: bool) -> Vec<u8> {
+        let mut w = BitWriter::new();
+        HuffmanEncoder::new(t, &mut w).encode4x(data, with_table);
+        w.dump()
+    }
+}
